@@ -166,7 +166,7 @@ type KStep struct {
 	Sample uint64
 }
 
-var kindCoq = map[string]string{"start": "KStart", "engine.iter": "KIter", "engine.get": "KGet", "engine.batch": "KBatch"}
+var kindCoq = map[string]string{"hold": "KHold", "start": "KStart", "engine.iter": "KIter", "engine.get": "KGet", "engine.batch": "KBatch"}
 
 // KCase is a finished case.
 type KCase struct {
@@ -309,6 +309,14 @@ type KBNode struct {
 	retryTh       *Thread
 	retryCtl      *kbThread
 	uncertainNext bool
+	// holdNext: the next batch commit that reaches the engine (on whatever goroutine) is held there
+	holdNext    bool
+	holdEntered chan struct{}
+	holdRelease chan struct{}
+	// compactGate: a Del / DelCurrent of this internal key (the compactor's) is held until released
+	compactGate    []byte
+	compactEntered chan struct{}
+	compactRelease chan struct{}
 	// a watcher on the whole prefix, started when the node is created
 	watchMu sync.Mutex
 	watched map[string]uint64 // key -> highest event revision delivered
@@ -401,6 +409,21 @@ func (n *KBNode) thread() *kbThread {
 }
 
 func (n *KBNode) before(kind string, key []byte) error {
+	if kind == "del" || kind == "delcur" {
+		n.mu.Lock()
+		hit := n.compactGate != nil && bytes.Equal(key, n.compactGate)
+		var entered, release chan struct{}
+		if hit {
+			n.compactGate = nil
+			entered, release = n.compactEntered, n.compactRelease
+		}
+		n.mu.Unlock()
+		if hit {
+			close(entered)
+			<-release
+		}
+		return nil
+	}
 	if kind != "iter" && kind != "get" && kind != "batch" {
 		return nil
 	}
@@ -439,6 +462,18 @@ func (n *KBNode) before(kind string, key []byte) error {
 }
 
 func (n *KBNode) commitFault() (error, bool) {
+	n.mu.Lock()
+	hold := n.holdNext
+	var entered, release chan struct{}
+	if hold {
+		n.holdNext = false
+		entered, release = n.holdEntered, n.holdRelease
+	}
+	n.mu.Unlock()
+	if hold {
+		close(entered)
+		<-release
+	}
 	th := n.thread()
 	if th == nil {
 		n.mu.Lock()
@@ -468,7 +503,11 @@ func (n *KBNode) WaitRev(rev uint64, d time.Duration) bool {
 
 // Do executes one request on the calling goroutine.
 func (n *KBNode) Do(q KReq, key []byte) (r KResp) {
-	ctx := context.Background()
+	return n.DoCtx(context.Background(), q, key)
+}
+
+// DoCtx executes one request with the given request context.
+func (n *KBNode) DoCtx(ctx context.Context, q KReq, key []byte) (r KResp) {
 	r.Op = q.Op
 	defer func() {
 		if p := recover(); p != nil {
@@ -587,6 +626,12 @@ type KBSpec struct {
 	Rewrite bool
 	// RewriteDelete: the uncertain write is a delete instead of an update
 	RewriteDelete bool
+	// Hold: thread HoldThread issues its requests with a context deadline of HoldDeadline; the first batch
+	// commit it sends to the engine is held INSIDE the engine (after the adapter's Commit was called) for
+	// longer than the deadline; the read revision is sampled while it is held, then the commit is released.
+	Hold         bool
+	HoldThread   int
+	HoldDeadline time.Duration
 }
 
 func (n *KBNode) seqCall(q KReq, key []byte) (KResp, error) {
@@ -763,7 +808,12 @@ func (n *KBNode) RunCase(spec KBSpec) (*KCase, error) {
 				}
 			}()
 			for _, q := range progs[i] {
-				resp := n.Do(q, n.Key(q.Key))
+				ctx, cancel := context.Background(), context.CancelFunc(func() {})
+				if spec.Hold && i == spec.HoldThread {
+					ctx, cancel = context.WithTimeout(ctx, spec.HoldDeadline)
+				}
+				resp := n.DoCtx(ctx, q, n.Key(q.Key))
+				cancel()
 				n.mu.Lock()
 				ctl.resps = append(ctl.resps, resp)
 				n.mu.Unlock()
@@ -783,6 +833,7 @@ func (n *KBNode) RunCase(spec KBSpec) (*KCase, error) {
 	}()
 
 	done := make([]bool, len(progs))
+	heldDone := false
 	seenResps := make([]int, len(progs))
 	var runErr error
 	for step := 0; ; step++ {
@@ -853,6 +904,62 @@ func (n *KBNode) RunCase(spec KBSpec) (*KCase, error) {
 			}
 			st.Sample = n.B.GetCurrentRevision()
 			c.Steps = append(c.Steps, st)
+			continue
+		}
+		if spec.Hold && t == spec.HoldThread && !heldDone && point == "engine.batch" {
+			heldDone = true
+			c.Choices = append(c.Choices, t)
+			c.Alive = append(c.Alive, alive)
+			ctls[t].env = EnvOk
+			th := threads[t]
+			n.mu.Lock()
+			n.holdNext, n.holdEntered, n.holdRelease = true, make(chan struct{}), make(chan struct{})
+			entered, release := n.holdEntered, n.holdRelease
+			n.mu.Unlock()
+			th.resume <- struct{}{}
+			select {
+			case <-entered:
+			case <-time.After(3 * time.Second):
+				close(release)
+				runErr = fmt.Errorf("thread %d never reached the engine commit", t)
+			}
+			if runErr != nil {
+				break
+			}
+			// the commit is inside the engine now; let the request deadline pass
+			time.Sleep(spec.HoldDeadline + spec.HoldDeadline/2)
+			finished := false
+			select {
+			case <-th.done:
+				finished = true
+			default:
+			}
+			n.mu.Lock()
+			newResps := append([]KResp{}, ctls[t].resps[seenResps[t]:]...)
+			seenResps[t] = len(ctls[t].resps)
+			n.mu.Unlock()
+			c.Steps = append(c.Steps, KStep{T: t, Env: EnvOk, Kind: "hold", Resps: newResps, Sample: n.B.GetCurrentRevision()})
+			close(release)
+			if finished {
+				// the request came back although its storage transaction had not finished
+				done[t] = true
+				time.Sleep(50 * time.Millisecond) // let the released transaction land before the final dump
+				continue
+			}
+			p, fin := n.S.Wait(th, 3*time.Second)
+			if p == "<blocked>" {
+				runErr = fmt.Errorf("thread %d blocked after its held commit was released", t)
+				n.Dead = true
+				break
+			}
+			if fin {
+				done[t] = true
+			}
+			n.mu.Lock()
+			newResps = append([]KResp{}, ctls[t].resps[seenResps[t]:]...)
+			seenResps[t] = len(ctls[t].resps)
+			n.mu.Unlock()
+			c.Steps = append(c.Steps, KStep{T: t, Env: EnvOk, Kind: "engine.batch", Resps: newResps, Sample: n.B.GetCurrentRevision()})
 			continue
 		}
 		if point == "start" {
@@ -1205,4 +1312,122 @@ func (n *KBNode) panicMsg() string {
 	n.mu.Lock()
 	defer n.mu.Unlock()
 	return n.Panic
+}
+
+// ---------- a compaction pass racing a create over the tombstone it is about to collect ----------
+
+type KCompactCase struct {
+	Engine        string
+	Cidx0         bool
+	D0, R         uint64
+	Init, Final   KState
+	Writes        []KReq
+	WResps        []KResp
+	Get           KResp // HasKv / KvVal / KvRev used
+	UpdateOK      bool
+	CreateRefused bool
+}
+
+func (c *KCompactCase) Coq() string {
+	ws := make([]string, len(c.Writes))
+	for i := range c.Writes {
+		ws[i] = Pair(c.Writes[i].Coq(), c.WResps[i].Coq())
+	}
+	get := None()
+	if c.Get.HasKv {
+		get = Some(Pair(Bytes(c.Get.KvVal), N(c.Get.KvRev)))
+	}
+	return App("C1Compact", App("Build_compact_case", Bool(c.Cidx0), N(c.D0), N(c.R), c.Init.Coq(), List(ws), c.Final.Coq(),
+		get, Bool(c.UpdateOK), Bool(c.CreateRefused)))
+}
+
+func (c *KCompactCase) JSON() interface{} {
+	ws := []interface{}{}
+	for i := range c.Writes {
+		ws = append(ws, map[string]interface{}{"req": c.Writes[i].JSON(), "resp": c.WResps[i].JSON()})
+	}
+	return map[string]interface{}{"engine": c.Engine, "d0": c.D0, "compact_revision": c.R, "key_when_compactor_read_it": c.Init.JSON(),
+		"writes_while_compactor_is_held_before_deleting_the_index_record": ws, "final": c.Final.JSON(),
+		"probe_get": c.Get.JSON(), "probe_update_naming_get_revision_ok": c.UpdateOK, "probe_second_create_refused": c.CreateRefused}
+}
+
+// RunCompactRace: key 0 is created and deleted; Backend.Compact(R >= tombstone) runs on its own goroutine
+// and is held right before it deletes the key's index record; a client create commits; the compactor
+// resumes; then the follow-up probes.
+func (n *KBNode) RunCompactRace() (*KCompactCase, error) {
+	n.caseNo++
+	ctx := context.Background()
+	c := &KCompactCase{Engine: n.Engine, Cidx0: n.Cidx0}
+	k := n.Key(0)
+	r0, err := n.seqCall(KReq{Op: OpCreate, Val: []byte("old")}, k)
+	if err != nil {
+		return c, err
+	}
+	d, err := n.seqCall(KReq{Op: OpDelete, Rev: r0.Hdr}, k)
+	if err != nil {
+		return c, err
+	}
+	c.D0, c.R = n.B.GetCurrentRevision(), d.Hdr
+	st, err := n.KeyStates(1)
+	if err != nil {
+		return c, err
+	}
+	c.Init = st[0]
+	n.mu.Lock()
+	n.compactGate, n.compactEntered, n.compactRelease = n.cd.EncodeRevisionKey(k), make(chan struct{}), make(chan struct{})
+	entered, release := n.compactEntered, n.compactRelease
+	n.mu.Unlock()
+	cdone := make(chan struct{})
+	go func() {
+		defer close(cdone)
+		_, _ = n.B.Compact(ctx, c.R)
+	}()
+	select {
+	case <-entered:
+	case <-cdone:
+		n.mu.Lock()
+		n.compactGate = nil
+		n.mu.Unlock()
+		return c, fmt.Errorf("the compaction pass never tried to delete the index record of the tombstoned key")
+	case <-time.After(5 * time.Second):
+		close(release)
+		return c, fmt.Errorf("the compaction pass did not reach the key")
+	}
+	q := KReq{Op: OpCreate, Val: []byte("new")}
+	resp := n.Do(q, k)
+	c.Writes, c.WResps = []KReq{q}, []KResp{resp}
+	close(release)
+	select {
+	case <-cdone:
+	case <-time.After(20 * time.Second):
+		n.Dead = true
+		return c, fmt.Errorf("the compaction pass did not finish")
+	}
+	if st, err = n.KeyStates(1); err != nil {
+		return c, err
+	}
+	c.Final = st[0]
+	// follow-up probes
+	last := n.B.GetCurrentRevision()
+	if g, err := n.B.Get(ctx, &proto.GetRequest{Key: k}); err == nil && g != nil && g.Kv != nil {
+		c.Get = KResp{HasKv: true, KvVal: g.Kv.Value, KvRev: g.Kv.Revision}
+		u := n.Do(KReq{Op: OpUpdate, Val: []byte("probe"), Rev: g.Kv.Revision}, k)
+		c.UpdateOK = !u.Err && u.Succ
+	} else {
+		n.Do(KReq{Op: OpUpdate, Val: []byte("probe"), Rev: resp.Hdr}, k)
+	}
+	cr := n.Do(KReq{Op: OpCreate, Val: []byte("again")}, k)
+	c.CreateRefused = !cr.Err && !cr.Succ
+	mk := n.Do(KReq{Op: OpCreate, Val: []byte("m")}, []byte(fmt.Sprintf("%s/c%d/marker", KBPrefix, n.caseNo)))
+	if !mk.Err {
+		last = mk.Hdr
+	}
+	if !n.WaitRev(last, 2*time.Second) {
+		n.Dead = true
+		return c, fmt.Errorf("stalled after the compaction race")
+	}
+	if pm := n.panicMsg(); pm != "" {
+		return c, fmt.Errorf("%s", pm)
+	}
+	return c, nil
 }
